@@ -23,7 +23,9 @@ KWAGRS_TEMPLATE = "{% for key, value in kwargs.items() %}" \
                   "{% endfor %}"
 
 keywords_set = set(keyword.kwlist)
-builtins_set = set(__builtins__.keys())
+# (the names that the `site` module adds are spelled out: with `python -S` they are not among the builtins,
+# and the same command has to give the same field names however the interpreter was started)
+builtins_set = set(__builtins__.keys()) | {'copyright', 'credits', 'exit', 'help', 'license', 'quit'}
 # ('self': attrs generates `def __init__(self, <fields>)`, a field with that name is a duplicate argument)
 other_common_names_set = {'datetime', 'time', 'date', 'defaultdict', 'schema', 'self'}
 # Names that generated modules may import: a field or class with such a name would rebind the import
